@@ -131,6 +131,9 @@ def run_core(pid, tier, seed, plan):
             total["states"] += gres["distinct"]
             total["transitions"] += gres["generated"]
         total["behaviours_generated"] += len(beh)
+        if camp.get("require_tag"):
+            tg = cplan.get("tagger") or engine.tags_of
+            beh = [b for b in beh if any(t in camp["require_tag"] for t in tg(b))]
         if camp.get("require_action"):
             # the campaign is about one kind of action: replay only behaviours that contain it
             beh = [b for b in beh if any(a["a"] in camp["require_action"] for a in b)]
